@@ -19,6 +19,8 @@ impl<'a> StateMachine<'a> {
     //@ stub src/handlers/merge_conflict.rs StateMachine::paint_buffered_merge_conflict_lines spec=merge.paint_buffered_merge_conflict_lines
     // verified against this contract in U06
     //@ stub src/handlers/submodule.rs StateMachine::handle_pending_submodule_short_commit spec=misc.pending_submodule optional=1
+    // verified against this contract in U05
+    //@ stub src/handlers/hunk_header.rs StateMachine::handle_pending_hunk_header_line spec=hunk_header.pending optional=1
     // verified against a stronger contract in U14
     //@ stub src/delta.rs StateMachine::ingest_line
     //@| ensures final(self).state == old(self).state && final(self).painter == old(self).painter && final(self).config == old(self).config,
@@ -27,6 +29,7 @@ impl<'a> StateMachine<'a> {
     //@| ensures sm_frame(final(self), old(self)),
     //@|         r.is_ok() && old(self).state is MergeConflict ==> mc_empty(&final(self).painter.merge_conflict_lines) && !(final(self).state is MergeConflict),  // @C01:at.the.end.of.the.input.no.conflict.line.is.left.behind
     //@|         !(old(self).state is MergeConflict) ==> final(self).state == old(self).state && final(self).painter == old(self).painter,
+    //@|         r.is_ok() ==> (final(self).painter.line_numbers_data is Some) == (old(self).painter.line_numbers_data is Some),
     //@|         r.is_ok() ==> (old(self).state matches State::MergeConflict(mp, _) ==> final(self).state == State::HunkZero(DiffType::Combined(mp, InMergeConflict::No), None)),
 
     // the statements of `consume` after its loop: what happens when the input ends
@@ -34,10 +37,11 @@ impl<'a> StateMachine<'a> {
     //@sig pub fn consume_end_of_input(&mut self) -> (r: std::io::Result<()>)
     //@fromafter <<<|| self.emit_line_unchanged()?; }>>>
     //@to <<<Ok(())>>>
-    //@| requires mc_state_parents_known(old(self).state), srcinv(old(self)),
+    //@| requires mc_state_parents_known(old(self).state), srcinv(old(self)), sm_wf(old(self)),
     //@| ensures r.is_ok() ==> final(self).painter.minus_lines@.len() == 0 && final(self).painter.plus_lines@.len() == 0 && final(self).painter.output_buffer@.len() == 0,  // @C01,C11:at.the.end.of.the.input.nothing.is.left.in.the.buffers
     //@|         r.is_ok() && old(self).state is MergeConflict ==> mc_empty(&final(self).painter.merge_conflict_lines),  // @C01:at.the.end.of.the.input.an.open.conflict.region.has.been.painted
     //@|         r.is_ok() ==> !(final(self).state is SubmoduleShort),  // @C01:at.the.end.of.the.input.no.submodule.commit.is.held.back
+    //@|         r.is_ok() ==> !(final(self).state is HunkHeader),  // @C02,C14:at.the.end.of.the.input.no.hunk.header.is.held.back
 
     // the statements of the loop body of `consume` before the handler chain: what happens before a line is offered to the handlers
     //@ region src/delta.rs StateMachine::consume
@@ -45,7 +49,9 @@ impl<'a> StateMachine<'a> {
     //@from <<<self.ingest_line(raw_line_bytes);>>>
     //@until <<<// Every method named handle_* must return std::io::Result<bool>.>>>
     //@tail Ok(())
-    //@| ensures r.is_ok() ==> (final(self).state is SubmoduleShort ==> is_prefix("+Subproject commit "@, final(self).line@)),  // @C01:a.submodule.commit.is.held.back.only.while.the.next.line.is.its.partner
+    //@| requires sm_wf(old(self)),
+    //@| ensures r.is_ok() ==> (final(self).state is HunkHeader ==> is_prefix("-Subproject commit "@, final(self).line@)),  // @C02,C14:a.hunk.header.is.held.back.only.while.the.next.line.may.be.a.submodule.commit
+    //@|         r.is_ok() ==> (final(self).state is SubmoduleShort ==> is_prefix("+Subproject commit "@, final(self).line@)),  // @C01:a.submodule.commit.is.held.back.only.while.the.next.line.is.its.partner
 }
 //@ stub src/delta.rs detect_source spec=delta.detect_source
 impl AmbiguousDiffMinusCounter {
